@@ -65,7 +65,7 @@ func (g *c19Gen) subject(depth int) *c19Val {
 // reuse a name, as in [1, x], [2, x] => x); within one pattern they are unique.
 // Every pool name is also a global assigned at the start of the rule, so that a
 // name NOT bound by the selected alternative reads as the outer value.
-var c19Pool = []string{"x", "y", "z", "w", "p", "q", "r9", "s9", "t9", "u9", "v9", "k9"}
+var c19Pool = []string{"x", "_", "y", "z", "w", "p", "q", "r9", "s9", "t9", "u9", "v9", "k9"}
 
 func (g *c19Gen) fresh() string {
 	for _, n := range c19Pool {
